@@ -44,6 +44,14 @@ type c03Case struct {
 	ConcW     bool   `json:"concurrent_writes"`
 	Big       bool   `json:"big_writes"` // every caller mostly issues multi-chunk writes of 3·MaxPacket bytes
 	WrapID    bool   `json:"wrap_id"`    // start the id counter just below 2^32
+
+	// family "ctx" (cli_c03ctx.go): a ReadDirContext is cancelled with a request outstanding, answered late
+	Kind   string `json:"kind,omitempty"`   // "" (permuting peer) | "ctx"
+	Hold   string `json:"hold,omitempty"`   // opendir | first | second (READDIR) | any
+	Late   string `json:"late,omitempty"`   // name (the regular reply) | eof (a STATUS) | any
+	Pos    int    `json:"pos,omitempty"`    // late reply goes before this follow-up reply of the same caller; -1 PRNG per round
+	K      int    `json:"k,omitempty"`      // follow-up calls per round; 0 PRNG 1…6
+	Rounds int    `json:"rounds,omitempty"` // abandoned requests per run
 }
 
 type c03Res struct {
@@ -64,7 +72,12 @@ func c03Child(idx int, raw json.RawMessage) (any, bool) {
 	if err := json.Unmarshal(raw, &cs); err != nil {
 		return c03Res{Fails: []c20Fail{{Key: "tie/case", What: err.Error()}}}, false
 	}
-	res := c03Run(cs)
+	var res c03Res
+	if cs.Kind == "ctx" {
+		res = c03RunCtx(cs)
+	} else {
+		res = c03Run(cs)
+	}
 	return res, res.ExitNow
 }
 
@@ -366,7 +379,7 @@ func c03Run(cs c03Case) (res c03Res) {
 			issue(fmt.Sprintf("open own%d %d", c, wire.FRead|wire.FWrite))
 		}
 	}) || err != nil {
-		fail("tie/setup", fmt.Sprint("setup open failed: ", err), nil)
+		fail("error/setup-open", fmt.Sprint("opening the files failed although every OPEN was answered with a handle: ", err), nil)
 		res.ExitNow = true
 		return
 	}
@@ -648,7 +661,7 @@ func head(s []string, n int) []string {
 func checkC03(c *lib.Ctx) {
 	r := c.R
 	thorough := c.Tier == "thorough"
-	r.Rule = "run = (callers 1…16, reply order perm|reverse|delay|fifo, seed, MaxPacket, concurrent writes on/off, big multi-chunk writes, id counter started just below 2^32): every caller issues a PRNG mix of 18 self-identifying operations (Stat/Lstat/ReadLink/RealPath/Mkdir/Rename/ReadDir/StatVFS/Open+Close/File.Stat/ReadAt and WriteAt single- and multi-chunk on a shared and an own File/Write+Read) on one Client; the peer answers the requests outstanding at a quiescent moment in a PRNG permutation of a PRNG subset, strictly reversed, one at a time with delays, or in order. A run is non-trivial when at least one batch of ≥2 outstanding requests was answered out of arrival order; distinct by run parameters."
+	r.Rule = "family 1: run = (callers 1…16, reply order perm|reverse|delay|fifo, seed, MaxPacket, concurrent writes on/off, big multi-chunk writes, id counter started just below 2^32): every caller issues a PRNG mix of 18 self-identifying operations (Stat/Lstat/ReadLink/RealPath/Mkdir/Rename/ReadDir/StatVFS/Open+Close/File.Stat/ReadAt and WriteAt single- and multi-chunk on a shared and an own File/Write+Read) on one Client; the peer answers the requests outstanding at a quiescent moment in a PRNG permutation of a PRNG subset, strictly reversed, one at a time with delays, or in order. A run is non-trivial when at least one batch of ≥2 outstanding requests was answered out of arrival order; distinct by run parameters. Family 2 (abandoned request): ReadDirContext is cancelled while its OPENDIR, first READDIR or second READDIR is outstanding (the peer holds it); the deferred CLOSE, 1…6 self-identifying follow-up calls of the same caller and the calls of 0/1/3/8 concurrent callers run; the peer answers the abandoned request late (regular reply or STATUS) before the j-th follow-up reply, j PRNG incl. 0 = before the CLOSE reply, or after all calls completed; three more calls follow; 8 (quick) / 25 (thorough) abandoned requests per run."
 	var cases []c03Case
 	if c.Replay != "" {
 		var one c03Case
@@ -681,6 +694,27 @@ func checkC03(c *lib.Ctx) {
 			}
 		}
 	}
+	if c.Replay == "" {
+		// abandoned requests: ReadDirContext cancelled with OPENDIR / first READDIR / second READDIR outstanding,
+		// late reply (regular or STATUS) before the j-th follow-up reply or after all; 0…8 concurrent bystanders
+		rounds, reps := 8, 2
+		if thorough {
+			rounds, reps = 25, 25
+		}
+		for rep := 0; rep < reps; rep++ {
+			for _, hold := range []string{"opendir", "first", "second"} {
+				for _, late := range []string{"name", "eof"} {
+					for _, callers := range []int{0, 1, 3, 8} {
+						cases = append(cases, c03Case{Kind: "ctx", Hold: hold, Late: late, Callers: callers, Pos: -1, Rounds: rounds, Seed: c.Rand.Int63(), MaxPacket: 1024, Mode: "ctx"})
+					}
+				}
+			}
+			// the two boundary positions, no bystanders: before the deferred CLOSE's reply; after every other call completed
+			for _, pos := range []int{0, 1 << 20} {
+				cases = append(cases, c03Case{Kind: "ctx", Hold: "any", Late: "any", Callers: 0, Pos: pos, Rounds: rounds, Seed: c.Rand.Int63(), MaxPacket: 1024, Mode: "ctx"})
+			}
+		}
+	}
 	selftest := -1
 	if c.Replay == "" {
 		// harness self-test: a peer that answers two requests with each other's content must be caught
@@ -703,7 +737,8 @@ func checkC03(c *lib.Ctx) {
 		r.Fail(lib.Failure{Kind: "tie", Key: "child-start", What: err.Error()})
 		return
 	}
-	calls, reqs, reordered, wrapped := 0, 0, 0, 0
+	calls, reqs, reordered, wrapped, abandoned := 0, 0, 0, 0, 0
+	var ctxSample []string
 	for i, cs := range cases {
 		canon, _ := json.Marshal(cs)
 		if d := deaths[i]; d != nil {
@@ -740,9 +775,19 @@ func checkC03(c *lib.Ctx) {
 		}
 		r.Hist(fmt.Sprintf("callers/%02d", cs.Callers))
 		r.Hist("mode/" + cs.Mode)
-		r.Hist(fmt.Sprintf("max-outstanding/%02d", min(res.MaxOut, 40)/4*4))
-		for k, v := range res.Batches {
-			r.Histogram[fmt.Sprintf("batch-size/%02s", k)] += v
+		if cs.Kind == "ctx" {
+			abandoned += res.Reordered
+			for k, v := range res.Batches {
+				r.Histogram[fmt.Sprintf("ctx/late-reply-before-follow-up-reply/%02s", k)] += v
+			}
+			if len(ctxSample) == 0 && cs.Callers == 0 {
+				ctxSample = res.Trace
+			}
+		} else {
+			r.Hist(fmt.Sprintf("max-outstanding/%02d", min(res.MaxOut, 40)/4*4))
+			for k, v := range res.Batches {
+				r.Histogram[fmt.Sprintf("batch-size/%02s", k)] += v
+			}
 		}
 		for k, v := range res.OpHist {
 			r.Histogram["op/"+k] += v
@@ -763,6 +808,13 @@ func checkC03(c *lib.Ctx) {
 			r.Fail(lib.Failure{Kind: kind, Key: f.Key, What: f.What, Input: cs, Actual: f.Act})
 		}
 	}
+	if len(ctxSample) > 0 {
+		if len(ctxSample) > 28 {
+			ctxSample = append(ctxSample[:28:28], "…")
+		}
+		r.Sample(map[string]any{"family": "ctx", "trace_head": ctxSample})
+	}
+	r.Note("abandoned-request family: %d requests abandoned by context cancellation and answered late", abandoned)
 	r.Note("%d calls and %d requests in %d runs; %d batches answered out of arrival order; %d runs crossed the id wrap-around 2^32-1 → 0", calls, reqs, len(cases), reordered, wrapped)
 	r.Skip("no Lean driver for the connection model (lean/Sftp/Driver/ClientConn.lean, op `conn.run`) exists yet: the forced schedule (send#id request …, reply#id …) is recorded and shown in the samples, but not compared with a model run")
 }
